@@ -1,7 +1,12 @@
 package main
 
 import (
+	"go/ast"
+	"go/parser"
+	"go/token"
 	"go/types"
+
+	"golang.org/x/tools/go/ast/astutil"
 	"os"
 	"path/filepath"
 	"reflect"
@@ -68,7 +73,16 @@ func configureEngine(e *sym.Engine) {
 	e.Natives["go/types.NewMethodSet"] = types.NewMethodSet
 	e.Natives["go/types.TypeString"] = types.TypeString
 	e.Natives["go/types.Universe"] = reflect.ValueOf(&types.Universe)
+	e.Natives["go/types.NewPointer"] = types.NewPointer
+	e.Natives["go/types.Unalias"] = types.Unalias
+	e.Natives["go/parser.ParseFile"] = parser.ParseFile
+	e.Natives["go/token.NewFileSet"] = token.NewFileSet
+	e.Natives["go/ast.IsExported"] = ast.IsExported
+	e.Natives["go/ast.Inspect"] = ast.Inspect
+	e.Natives["golang.org/x/tools/go/ast/astutil.PathEnclosingInterval"] = astutil.PathEnclosingInterval
 	e.Whitelist["path.Ext"] = true
+	sym.TModeStubs(e.Stubs)
+	e.SkeletonRoot = filepath.Join(verifDir, "skeletons")
 }
 
 // inPkgOverlay maps in-package harness support files (accessors for unexported kernels) into /repo.
